@@ -51,6 +51,41 @@ func oracle(src []refsmf.Event) (meta []absEv, ch [16][]absEv, endTick int64, ha
 	return
 }
 
+// representable reports whether every track of the expected result can be
+// written at all: the gap between two consecutive events of a result track
+// (and up to its end) must fit the format's 28-bit delta. A source whose
+// conversion would need a longer delta is outside the domain (no valid
+// format-1 file holds its content without filler events).
+func representable(src []refsmf.Event) bool {
+	meta, ch, end, had := oracle(src)
+	last := int64(0)
+	for _, e := range src {
+		last += int64(e.Delta)
+	}
+	if !had {
+		end = last
+	}
+	ok := func(evs []absEv, endAt int64) bool {
+		var p int64
+		for _, e := range evs {
+			if e.tick-p > 0x0FFFFFFF {
+				return false
+			}
+			p = e.tick
+		}
+		return endAt-p <= 0x0FFFFFFF
+	}
+	if !ok(meta, end) {
+		return false
+	}
+	for c := range ch {
+		if len(ch[c]) > 0 && !ok(ch[c], ch[c][len(ch[c])-1].tick) {
+			return false
+		}
+	}
+	return true
+}
+
 func toAbs(t smf.Track) (evs []absEv, eots int, lastIsEOT bool, eotTick int64) {
 	var tick int64
 	for i, e := range t {
@@ -232,6 +267,10 @@ var deltaPatterns = map[string]func(i int) uint32{
 		return 0
 	},
 	"increasing": func(i int) uint32 { return 1 },
+	// long deltas, every time: absolute ticks pass 2^32 after 17 / 33 events
+	// (files in which a result track would need a delta beyond 28 bits are skipped)
+	"longest-deltas":      func(i int) uint32 { return 0x0FFFFFFF },
+	"half-longest-deltas": func(i int) uint32 { return 0x07FFFFFF },
 	"two-clusters": func(i int) uint32 {
 		if i == 15 {
 			return 100
@@ -278,6 +317,10 @@ func dense() {
 			for _, dp := range dps {
 				for _, cl := range []int{0, 1, 2} {
 					s, src := denseCase(n, kp, dp, cl > 0, uint32(cl-1)*5)
+					if !representable(src) {
+						ctx.Add("dense_files_outside_domain_gap_beyond_28_bits", 1)
+						continue
+					}
 					ctx.Eval()
 					ctx.Add("dense_files", 1)
 					sig, what := convCheck(s, src)
